@@ -25,7 +25,8 @@ import (
 	"verif/internal/vrand"
 )
 
-const stepBound = 20000 // GetSpec calls per expansion; an acyclic graph of <= 6 specs needs < 100
+const stepBound = 1000 // GetSpec calls per expansion; an acyclic graph of <= 6 specs needs < 100 (DoExpandSpec keeps a growing
+// "details" string per recursion level, so the bound also keeps a runaway recursion cheap)
 
 var (
 	collKeys = []spectypes.CollectionData{
@@ -549,6 +550,30 @@ func TestC22(t *testing.T) {
 		}
 		var plog []string
 		for _, sp := range proposals {
+			// the handler stores the spec and then expands it and every other stored spec with the keeper's own
+			// GetSpec (no step bound possible there): first make sure, with the counted expansion over the same
+			// would-be store, that all of these terminate
+			would := map[string]spectypes.Spec{}
+			for _, x := range k.GetAllSpec(pctx) {
+				would[x.Index] = x
+			}
+			would[sp.Index] = sp
+			runaway := false
+			for idx := range would {
+				if _, _, _, bounded := expandDirect(pctx, would, idx); bounded {
+					cyc, _ := analyse(would, idx)
+					if cyc {
+						run.Violation("import-cycle-not-rejected", "step-bound-exceeded", fmt.Sprintf("with %s%v proposed on top of the accepted specs, expansion of %s made more than %d GetSpec calls without rejecting the import cycle", sp.Index, sp.Imports, idx, stepBound), witness(idx, map[string]any{"proposals": proposals, "log": plog}))
+					} else {
+						run.Inconclusive(fmt.Sprintf("graph %d: expansion of %s exceeded %d GetSpec calls on an acyclic store", g, idx, stepBound))
+					}
+					runaway = true
+					break
+				}
+			}
+			if runaway {
+				break
+			}
 			cctx, write := pctx.CacheContext()
 			err := testkeeper.SimulateSpecAddProposal(cctx, k, []spectypes.Spec{cloneSpec(sp)})
 			run.Eval(1)
